@@ -89,6 +89,7 @@ fn sample_step(cap_s: u64) {
 #[kani::proof]
 fn c16_1_sample_step_quick() {
     sample_step(CAP_QUICK_S);
+    kani::cover!(true, "end of harness reachable (assumptions satisfiable, no unconditional failure)");
 }
 
 // @verif id=C16.1t props=C16,C06 tier=thorough timeout=3000
@@ -99,6 +100,7 @@ fn c16_1_sample_step_quick() {
 #[kani::proof]
 fn c16_1t_sample_step_thorough() {
     sample_step(CAP_THOROUGH_S);
+    kani::cover!(true, "end of harness reachable (assumptions satisfiable, no unconditional failure)");
 }
 
 // @verif id=C16.2 props=C16,C06 tier=quick
@@ -155,4 +157,5 @@ fn c16_3_init_and_backoff_chain() {
         i += 1;
     }
     assert!(e.retransmission_timeout() == MAX_RTO, "C16: back-off saturates at 60 s");
+    kani::cover!(true, "end of harness reachable (assumptions satisfiable, no unconditional failure)");
 }
